@@ -76,6 +76,15 @@ def run(res, tier, seed, shard, nshards):
                     if k % nshards != shard:
                         continue
                     addr_case(res, W, rng, lst, setting)
+                    if len(lst) >= 2 and (k // nshards) % 3 == 0:
+                        # the same list with failures that take a while to come back (each well within the socket timeout, all
+                        # of them together longer than it)
+                        addr_case(res, W, rng, lst, setting, slow=True)
+        # ---- through an HTTP proxy: the proxy's addresses are the ones tried, with the configured timeout and options ----
+        for pi, (timeout, ptimeout) in enumerate([(1.5, 7), (5, 0.3), (None, 2), (2, None), (3, 3)]):
+            for lst in (("accept",), ("refused", "accept"), ("unreachable", "refused", "accept")):
+                if (pi + len(lst)) % nshards == shard % max(1, min(nshards, 8)) or nshards == 1:
+                    proxy_addr_case(res, W, rng, lst, timeout, ptimeout)
 
     H.in_sim(scen, watchdog=3000)
 
@@ -169,7 +178,55 @@ def url_case(res, W, url, full):
     res.sample(case, cap=3)
 
 
-def addr_case(res, W, rng, lst, setting):
+def proxy_addr_case(res, W, rng, lst, timeout, ptimeout):
+    """ws://target.test:8123/room/7?k=v through the HTTP proxy proxy.test:3128 whose name resolves to len(lst) addresses;
+    http_proxy_timeout is given as well (it belongs to the SOCKS path): every socket tried gets the configured timeout and options"""
+    H.reset_process_state()
+    net_ = H.make_net()
+    ips = [f"203.0.113.{i + 1}" for i in range(len(lst))]
+    net_.add_host("proxy.test", ips)
+    tunnels = []
+    for ip, o in zip(ips, lst):
+        if o == "accept":
+            net_.listen(ip, 3128, ("accept", lambda c: tunnels.append(H.TunnelPeer(c))))
+        else:
+            net_.listen(ip, 3128, (o,))
+    user_opts = [(_socket.SOL_SOCKET, _socket.SO_RCVBUF, 8192)]
+    kw = dict(http_proxy_host="proxy.test", http_proxy_port=3128, proxy_type="http")
+    if ptimeout is not None:
+        kw["http_proxy_timeout"] = ptimeout
+    case = {"gen": "proxy-addresses", "outcomes": lst, "timeout": timeout, "http_proxy_timeout": ptimeout}
+    res.case(("proxy-addr", lst, timeout, ptimeout), nontrivial=True)
+    res.count("proxy_address_lists")
+    try:
+        w = W.create_connection("ws://target.test:8123/room/7?k=v", timeout=timeout, sockopt=user_opts, **kw)
+    except Exception as e:  # noqa
+        res.violation("address-loop-aborted", f"through proxy, addresses {lst}: {type(e).__name__}: {e}", case, exc_type=type(e).__name__)
+        return
+    attempts = [a[1][0] for a in net_.connect_attempts]
+    if attempts != ips:
+        res.violation("address-order", f"through proxy: attempted {attempts}, expected {ips}", case, first_outcome=lst[0])
+    socks = [s for s in net_.sockets if not getattr(s, "is_tls", False)]
+    default = [tuple(o) for o in W._socket.DEFAULT_SOCKET_OPTION]
+    for i, s in enumerate(socks):
+        if s.gettimeout() != timeout or any(t != timeout for t in s.timeouts_set):
+            res.violation("timeout-not-applied", f"through proxy (timeout={timeout!r}, http_proxy_timeout={ptimeout!r}): socket {i} has timeout {s.gettimeout()!r} "
+                          f"(set calls {s.timeouts_set})", case, foreign_default="None")
+            break
+        for o in default + [tuple(o) for o in user_opts]:
+            if o not in s.opts:
+                res.violation("sockopt-not-applied", f"through proxy: socket {i} lacks option {o}; has {s.opts}", case, which="user" if o in [tuple(x) for x in user_opts] else "default")
+    if tunnels and tunnels[0].connect_request is not None:
+        first = tunnels[0].connect_request.split(b"\r\n")[0]
+        if first != b"CONNECT target.test:8123 HTTP/1.1":
+            res.violation("url-target", f"through proxy: CONNECT line {first!r}", case)
+        inner = tunnels[0].inner
+        if inner is not None and inner.request is not None and not inner.request.startswith(b"GET /room/7?k=v HTTP/1.1\r\n"):
+            res.violation("url-resource", f"through proxy: request line {inner.request.split(b'\r\n')[0]!r}", case)
+    w.shutdown()
+
+
+def addr_case(res, W, rng, lst, setting, slow=False):
     H.reset_process_state()
     net_ = H.make_net()
     ips = [f"198.51.100.{i + 1}" for i in range(len(lst))]
@@ -184,9 +241,9 @@ def addr_case(res, W, rng, lst, setting):
         if o == "accept":
             net_.listen(ip, 8080, ("accept", lambda c: H.HandshakePeer(c)))
         elif o == "refused":
-            net_.listen(ip, 8080, ("refused",))
+            net_.listen(ip, 8080, ("refused", [1.35, 3.4, 1.0][setting] if slow else 0))
         elif o == "unreachable":
-            net_.listen(ip, 8080, ("unreachable",))
+            net_.listen(ip, 8080, ("unreachable", [1.35, 3.4, 1.0][setting] if slow else 0))
         else:
             errs[ip] = PermissionError(errno.EPERM, "Operation not permitted")
             net_.listen(ip, 8080, ("error", errs[ip]))
@@ -216,8 +273,10 @@ def addr_case(res, W, rng, lst, setting):
     if foreign is not None:
         res.count("with_foreign_stdlib_default_timeout")
     res.count("address_lists")
-    res.case(("addr", lst, setting), nontrivial=len(lst) >= 2)
-    case = {"outcomes": lst, "setting": setting}
+    if slow:
+        res.count("address_lists_with_slow_failures")
+    res.case(("addr", lst, setting, slow), nontrivial=len(lst) >= 2)
+    case = {"outcomes": lst, "setting": setting, "slow_failures": slow}
     # reference
     exp_attempts = []
     exp_result = None
@@ -234,7 +293,7 @@ def addr_case(res, W, rng, lst, setting):
     attempts = [a[1][0] for a in net_.connect_attempts]
 
     def bad(kind_, detail, **kw):
-        res.violation(kind_, f"addresses {lst} setting {setting}: {detail}", case, **kw)
+        res.violation(kind_, f"addresses {lst} setting {setting}{' (slow failures)' if slow else ''}: {detail}", case, **kw)
 
     if attempts != exp_attempts:
         bad("address-order", f"attempted {attempts}, expected {exp_attempts}", first_outcome=lst[0])
